@@ -775,7 +775,9 @@ func c15JSSpell(r *rand.Rand, toks []string) (doc []byte, starts, ends []int) {
 		ws()
 		for r.Intn(5) == 0 {
 			doc = append(doc, gen.Pick(r, c15InlineComment)...)
-			ws()
+			if r.Intn(3) > 0 { // sometimes the next token directly follows the block comment
+				ws()
+			}
 		}
 	}
 	prev := ""
